@@ -1,9 +1,11 @@
 SPECIFICATION Spec
-CONSTANT Depth = 7
+CONSTANT Depth = 8
+CONSTANT ToolSet <- CoreTools
 CONSTRAINT DepthBound
 INVARIANT InvRunEndsClean
 INVARIANT InvNoCleanupBeforeEnd
 INVARIANT InvResultsOnlyAfterJoin
+INVARIANT InvResultsOnlyOfSuccess
 INVARIANT InvProcConsistent
 INVARIANT InvCleanupAtMostOnce
 PROPERTY RefusalIsNoOp
